@@ -330,6 +330,20 @@ def m_index_range(ex, callee, args):
     return StrV(sub_sstr(s, a, e - a))
 
 
+@model(r'^<(std::string::String|str) as (std::ops::)?Index<(std::ops::)?(RangeFrom|RangeTo)<usize>>>::index$')
+def m_index_range_open(ex, callee, args):
+    """&s[a..] and &s[..b]: the same checks as &s[a..b] with the missing bound filled in"""
+    s = as_str(args[0])
+    bs, ln, cap = S.parts(s)
+    rng = args[1]
+    bound = rng.items[0]
+    if 'RangeFrom' in callee:
+        full = Adt('Range', None, None, [bound, BV(ln, 'usize')])
+    else:
+        full = Adt('Range', None, None, [BV(0, 'usize'), bound])
+    return m_index_range(ex, callee, [args[0], full])
+
+
 # ----------------------------------------------------------------------
 # trim_matches / trim_start_matches / trim_end_matches with a closure or a char
 
